@@ -876,4 +876,188 @@ theorem mixed_factor_with_everywhere_default_refused (cfg : Cfg) (pre : PinMap) 
 example : viaUpdate 3 { noOpts with rmin := 2 } = none ∧
     (step { twoPeers with defMin := -1, defMax := -1 } [] (.pin 3 { noOpts with rmin := 2 }) [0]).res = none := by decide
 
+/-! ## Round 8d
+
+(a) consensus faults over the INTERPRETED sequences; (b) the clock of the expiry check as an input; (c) which fields
+`PinUpdate` takes from the source and which from the request, the (request, default) table of
+`setupReplicationFactor`; (d) Prop reading of `checkPinType`. -/
+
+/-- the fault wrapper of the interpreted sequences applied to the hand-written step is `stepF` -/
+theorem withFault_step (cfg : Cfg) (pre : PinMap) (op : Op) (ch : List Nat) (fault : Option Nat) :
+    Sem.withFault pre fault (step cfg pre op ch) = stepF cfg pre op ch fault := by
+  cases fault <;> rfl
+
+/-- ALL inputs and EVERY fault position: running the regenerated sequences with the k-th consensus call failing is the
+    model (+ the `cid.Undef` guard) with the k-th consensus call failing; no unknown statement is reached. -/
+theorem semF_is_model (cfg : Cfg) (pre : PinMap) (op : Op) (chosen : List Nat) (fault : Option Nat) :
+    Sem.stepSemF Gen.semProgs cfg pre op chosen fault = some (Sem.withFault pre fault (Sem.stepU cfg pre op chosen)) := by
+  simp [Sem.stepSemF, sem_is_model]
+
+/-- …and for calls naming defined cids that is `stepF`, the faulted model every round-7 theorem speaks about -/
+theorem semF_is_stepF (cfg : Cfg) (pre : PinMap) (op : Op) (chosen : List Nat) (fault : Option Nat)
+    (hdef : Sem.opDefined cfg op = true) :
+    Sem.stepSemF Gen.semProgs cfg pre op chosen fault = some (stepF cfg pre op chosen fault) := by
+  have h : Sem.stepU cfg pre op chosen = step cfg pre op chosen := by
+    cases op <;> simp [Sem.stepU, Sem.opDefined] at hdef ⊢ <;> simp_all
+  rw [semF_is_model, h, withFault_step]
+
+/-- `failed_call_is_noop_partial` over the interpreted code, ALL requests (defined cid or not) and every fault position:
+    a call whose regenerated sequence issues at most one consensus call leaves the pinset unchanged when it fails. -/
+theorem semF_failed_call_is_noop_partial (cfg : Cfg) (pre : PinMap) (op : Op) (ch : List Nat) (fault : Option Nat)
+    (hone : ∀ o, Sem.stepSem Gen.semProgs cfg pre op ch = some o → o.log.length ≤ 1) :
+    ∃ out, Sem.stepSemF Gen.semProgs cfg pre op ch fault = some out ∧ (out.res = none → out.post = pre) := by
+  refine ⟨_, semF_is_model cfg pre op ch fault, ?_⟩
+  cases hd : Sem.opDefined cfg op with
+  | true =>
+    have h : Sem.stepU cfg pre op ch = step cfg pre op ch := by
+      cases op <;> simp [Sem.stepU, Sem.opDefined] at hd ⊢ <;> simp_all
+    have h1 := hone _ (sem_is_model cfg pre op ch)
+    rw [h] at h1 ⊢; rw [withFault_step]
+    exact failed_call_is_noop_partial cfg pre op ch fault h1
+  | false =>
+    have h : Sem.stepU cfg pre op ch = err pre := by
+      cases op <;> simp_all [Sem.opDefined, Sem.stepU]
+    rw [h]; intro _
+    cases fault <;> simp [Sem.withFault, err]
+
+/-- non-vacuity: a data unpin with its only consensus call failing meets the hypothesis, fails, and changes nothing -/
+example : (∀ o, Sem.stepSem Gen.semProgs twoPeers [pinWithOpts 3 noOpts] (.unpin 3) [] = some o → o.log.length ≤ 1) ∧
+    (Sem.stepSemF Gen.semProgs twoPeers [pinWithOpts 3 noOpts] (.unpin 3) [] (some 0)).map (·.res) = some none := by
+  refine ⟨?_, by decide⟩
+  intro o ho
+  rw [sem_is_model] at ho
+  cases ho; decide
+
+/-! ### (b) the clock -/
+
+/-- EVERY clock value and every expiry: `setupPin` refuses exactly when an expiry is set and lies strictly before now -/
+theorem expired_refused_iff (now exp : Int) :
+    Clock.refusedAt now exp = true ↔ exp ≠ Clock.goZero ∧ exp < now := by
+  simp [Clock.refusedAt, Clock.isZero]
+
+/-- the boundary, for every clock value after 1970: now−ε refused, now / now+ε / the zero time / any later instant accepted -/
+theorem expiry_boundary (now : Int) (hnow : 0 < now) :
+    Clock.refusedAt now (now - 1) = true ∧ Clock.refusedAt now now = false ∧ Clock.refusedAt now (now + 1) = false ∧
+    Clock.refusedAt now Clock.goZero = false ∧ (∀ d, 0 ≤ d → Clock.refusedAt now (now + d) = false) ∧
+    (∀ d, 0 < d → d ≤ now → Clock.refusedAt now (now - d) = true) := by
+  simp only [Clock.refusedAt, Clock.isZero, Clock.goZero]
+  refine ⟨?_, ?_, ?_, ?_, ?_, ?_⟩
+  all_goals (intros; simp <;> omega)
+
+/-- the abstract instants of the model (`Expiry`) are a sound reading of the concrete clock: `beforeNow` is the refusal
+    for every (now, expiry); `afterNow` (what `PinUpdate` tests) for every expiry other than now itself -/
+theorem clock_abstraction (now exp : Int) (hnow : 0 < now) :
+    (Clock.abstract now exp).beforeNow = Clock.refusedAt now exp ∧
+    (exp ≠ now → (Clock.abstract now exp).afterNow = Clock.takenAt now exp) := by
+  by_cases h1 : exp = Clock.goZero
+  · subst h1; simp [Clock.abstract, Clock.refusedAt, Clock.takenAt, Clock.isZero, Expiry.beforeNow, Expiry.afterNow]
+  · by_cases h2 : exp = 0
+    · subst h2
+      have : ¬ (now < 0) := by omega
+      simp [Clock.abstract, Clock.refusedAt, Clock.takenAt, Clock.isZero, Clock.goZero, Expiry.beforeNow, Expiry.afterNow, hnow, this]
+    · by_cases h3 : exp < now
+      · have : ¬ (now < exp) := by omega
+        simp [Clock.abstract, Clock.refusedAt, Clock.takenAt, Clock.isZero, Expiry.beforeNow, Expiry.afterNow, h1, h2, h3, this]
+      · refine ⟨?_, ?_⟩
+        · simp [Clock.abstract, Clock.refusedAt, Clock.isZero, Expiry.beforeNow, h1, h2, h3]
+        · intro hne
+          have : now < exp := by omega
+          simp [Clock.abstract, Clock.takenAt, Clock.isZero, Expiry.afterNow, h1, h2, h3, this]
+
+/-- `api.Pin.ExpiredAt` and the refusal of `setupPin` are the same test except at `time.Unix(0, 0)`: such a pin is
+    refused at pin time, yet an entry carrying it is never reported expired -/
+theorem expiredAt_is_refused_except_unix_zero (now exp : Int) :
+    Clock.expiredAt now exp = (Clock.refusedAt now exp && exp != 0) := by
+  unfold Clock.expiredAt Clock.refusedAt
+  by_cases h1 : Clock.isZero exp = true <;> by_cases h2 : exp = 0 <;> simp [h1, h2]
+
+example : Clock.refusedAt 1 0 = true ∧ Clock.expiredAt 1 0 = false ∧ Clock.expiredAt 5 3 = true ∧
+    (Clock.probes.map (fun d => Clock.refusedAt 1000 (Clock.probeExp 1000 d))) = [false, true, true, false, false, false, false] := by decide
+
+/-- the `.expiry` statement of the regenerated `setupPin` refuses exactly at the clock values `expired_refused_iff` names -/
+theorem expiry_guard_iff_clock (cfg : Cfg) (p : Pin) (now exp : Int) (hnow : 0 < now)
+    (ho : p.opts.expire = Clock.abstract now exp) :
+    Sem.runSetup cfg none [.expiry, .existingNilOk] p false = some none ↔ (exp ≠ Clock.goZero ∧ exp < now) := by
+  rw [← expired_refused_iff]
+  have hb := (clock_abstraction now exp hnow).1
+  cases h : Clock.refusedAt now exp <;> simp [Sem.runSetup, ho, hb, h]
+
+/-- a user pin whose expiry lies before the clock is refused and changes nothing, for every clock value -/
+theorem clock_past_pin_refused (cfg : Cfg) (pre : PinMap) (c : Nat) (o : Opts) (ch : List Nat) (now exp : Int)
+    (hnow : 0 < now) (ho : o.expire = Clock.abstract now exp) (hr : Clock.refusedAt now exp = true)
+    (hu : viaUpdate c o = none) :
+    (step cfg pre (.pin c o) ch).res = none ∧ (step cfg pre (.pin c o) ch).post = pre := by
+  have hb : o.expire.beforeNow = true := by rw [ho, (clock_abstraction now exp hnow).1]; exact hr
+  have hmr : mustRefuse cfg pre (.pin c o) = true := by simp [mustRefuse, pinRequest, hu, hb]
+  have hres := mustRefuse_refused cfg pre (.pin c o) ch hmr
+  exact ⟨hres, shape_refused (shape_step cfg pre (.pin c o) ch) hres⟩
+
+example : Clock.abstract 1000 999 = .past ∧ Clock.refusedAt 1000 999 = true ∧
+    viaUpdate 3 { noOpts with expire := .past } = none := by decide
+
+/-! ### (c) PinUpdate's fields; setupReplicationFactor's table -/
+
+/-- EXACTLY which fields the pin `PinUpdate` logs takes from where: cid and update source from the call; name from the
+    request when non-empty; expiry from the request when set and ahead of the clock; EVERYTHING else (type, depth,
+    allocations, reference, factors, mode, shard size, metadata, origins) from the source pin — the request's are ignored -/
+theorem update_field_table (e : Pin) (src dst : Nat) (o : Opts) :
+    (updPin e src dst o).cid = dst ∧ (updPin e src dst o).opts.update = some src ∧
+    (updPin e src dst o).opts.name = (if o.name != 0 then o.name else e.opts.name) ∧
+    (updPin e src dst o).opts.expire = (if o.expire.afterNow then o.expire else e.opts.expire) ∧
+    (updPin e src dst o).type = e.type ∧ (updPin e src dst o).depth = e.depth ∧
+    (updPin e src dst o).allocs = e.allocs ∧ (updPin e src dst o).ref = e.ref ∧
+    (updPin e src dst o).opts.rmin = e.opts.rmin ∧ (updPin e src dst o).opts.rmax = e.opts.rmax ∧
+    (updPin e src dst o).opts.mode = e.opts.mode ∧ (updPin e src dst o).opts.shard = e.opts.shard ∧
+    (updPin e src dst o).opts.metadata = e.opts.metadata ∧ (updPin e src dst o).opts.origins = e.opts.origins ∧
+    (updPin e src dst o).opts.ualloc = e.opts.ualloc := by
+  unfold updPin
+  split_ifs <;> exact ⟨rfl, rfl, rfl, rfl, rfl, rfl, rfl, rfl, rfl, rfl, rfl, rfl, rfl, rfl, rfl⟩
+
+/-- REFUTATION of the alternative a wrong edit would implement: the update does NOT take metadata / factors from the request -/
+theorem update_does_not_take_request_metadata :
+    ¬ ∀ (e : Pin) (src dst : Nat) (o : Opts), (updPin e src dst o).opts.metadata = o.metadata ∧
+        (updPin e src dst o).opts.rmax = o.rmax := by
+  intro h
+  have := h (pinWithOpts 3 { noOpts with metadata := [(1, 1)], rmax := 2 }) 3 4 noOpts
+  revert this; decide
+
+/-- effective factors are valid exactly when both are −1 (everywhere) or 0 < min ≤ max -/
+theorem factors_valid_iff (m M : Int) : C03.factorsValid m M = true ↔ (m = -1 ∧ M = -1) ∨ (0 < m ∧ m ≤ M) := by
+  simp [C03.factorsValid]
+  omega
+
+/-- `setupReplicationFactor`, EVERY (request, default) combination: per component a request of 0 means the default,
+    anything else (negative too) is kept; the pin is accepted iff the effective pair is (−1, −1) or 0 < min ≤ max;
+    preset allocations are dropped exactly for (−1, −1); no other field changes -/
+theorem setup_replication_factor_table (cfg : Cfg) (p : Pin) :
+    (setupFactors cfg p).opts.rmin = (if p.opts.rmin = 0 then cfg.defMin else p.opts.rmin) ∧
+    (setupFactors cfg p).opts.rmax = (if p.opts.rmax = 0 then cfg.defMax else p.opts.rmax) ∧
+    (setupFactors cfg p).allocs = (if effRmin cfg p = -1 ∧ effRmax cfg p = -1 then [] else p.allocs) ∧
+    (setupFactors cfg p).cid = p.cid ∧ (setupFactors cfg p).type = p.type ∧ (setupFactors cfg p).depth = p.depth ∧
+    (setupFactors cfg p).ref = p.ref ∧ (setupFactors cfg p).opts.name = p.opts.name ∧
+    (setupFactors cfg p).opts.expire = p.opts.expire ∧ (setupFactors cfg p).opts.metadata = p.opts.metadata ∧
+    (C03.factorsValid (effRmin cfg p) (effRmax cfg p) = true ↔
+      (effRmin cfg p = -1 ∧ effRmax cfg p = -1) ∨ (0 < effRmin cfg p ∧ effRmin cfg p ≤ effRmax cfg p)) := by
+  refine ⟨?_, ?_, ?_, ?_, ?_, ?_, ?_, ?_, ?_, ?_, factors_valid_iff _ _⟩
+  all_goals (unfold setupFactors; split_ifs <;> simp_all [effRmin, effRmax])
+
+/-- the sign table on representative values: request (min, max) × default (min, max) → accepted? -/
+example :
+    ([((0, 0), (1, 2)), ((0, 0), (-1, -1)), ((2, 0), (1, 3)), ((2, 0), (-1, -1)), ((0, 3), (-1, -1)), ((-1, 0), (1, 2)),
+      ((-1, -1), (1, 2)), ((0, -1), (1, 2)), ((3, 2), (1, 2)), ((0, 1), (2, 3)), ((-2, 0), (1, 2)), ((0, 0), (0, 0))] :
+        List ((Int × Int) × (Int × Int))).map
+      (fun q => C03.factorsValid (effRmin { twoPeers with defMin := q.2.1, defMax := q.2.2 } (pinWithOpts 3 { noOpts with rmin := q.1.1, rmax := q.1.2 }))
+                                 (effRmax { twoPeers with defMin := q.2.1, defMax := q.2.2 } (pinWithOpts 3 { noOpts with rmin := q.1.1, rmax := q.1.2 })))
+    = [true, true, true, false, false, false, true, false, false, false, false, false] := by decide
+
+/-! ### (d) checkPinType -/
+
+/-- Prop reading of `checkPinType`: what each pin type must look like to be accepted over an existing entry -/
+theorem checkPinType_iff (p : Pin) : checkPinType p = true ↔
+    (p.type = .dataT ∧ p.ref.isNone = true) ∨ (p.type = .shardT ∧ p.depth = 1) ∨
+    (p.type = .clusterDagT ∧ p.depth = 0 ∧ p.ref.isSome = true) ∨
+    (p.type = .metaT ∧ p.allocs.isEmpty = true ∧ p.ref.isSome = true) := by
+  unfold checkPinType
+  cases p.type <;> simp
+
 end CV.C04
